@@ -144,6 +144,22 @@ Proof.
   - apply H. apply in_seq. lia.
 Qed.
 
+(** the specifications do not mention the star *)
+Lemma sum_n_with_star st n f : sum_n (with_star o st) n f = sum_n o n f.
+Proof.
+  unfold sum_n. induction (map f (seq 0 n)) as [|x l IH]; [reflexivity|].
+  cbn [sum_list]. rewrite IH. reflexivity.
+Qed.
+Lemma sol_spec_with_star st n A b x : sol_spec n A b x ->
+  forall i, i < n -> x i = add (with_star o st) (sum_n (with_star o st) n
+        (fun j => mul (with_star o st) (get2 (with_star o st) A i j) (x j))) (get1 (with_star o st) b i).
+Proof. intros H i Hi. rewrite sum_n_with_star. exact (H i Hi). Qed.
+Lemma sol_spec_of_with_star st n A b x :
+  (forall i, i < n -> x i = add (with_star o st) (sum_n (with_star o st) n
+        (fun j => mul (with_star o st) (get2 (with_star o st) A i j) (x j))) (get1 (with_star o st) b i)) ->
+  sol_spec n A b x.
+Proof. intros H i Hi. specialize (H i Hi). rewrite sum_n_with_star in H. exact H. Qed.
+
 (** C09_gauss_jordan_refines, first half: the list loop is the function loop *)
 Theorem solve_model_gjf n A b i : i < n ->
   get1 o (solve_model o n A b) i = gjf o nat (seq 0 n) (get2 o A) (get1 o b) i.
